@@ -4,7 +4,7 @@
    element types and every argument list (by case analysis over the argument shapes and induction over the
    lists, not by evaluation on samples).  Then the headline theorems of C20.v restated for [run_ctor]. *)
 From Coq Require Import String.
-From Verif Require Import Base Sorter Value Seq Coll Pool PoolRun Params SetProofs AssocProofs Facade FacadeProofs ModuleLang ModuleSem GenModule.
+From Verif Require Import Base Sorter Value Seq Coll Pool PoolRun Params SetProofs AssocProofs Facade FacadeProofs ModuleLang ModuleSem ModuleFacts GenModule.
 Open Scope Z_scope.
 Open Scope list_scope.
 
@@ -41,10 +41,6 @@ End LoopSim.
 Tactic Notation "explode" ident(scr) integer(n) :=
   do n (let x := fresh "x" in destruct scr as [|x scr]; [discriminate|]); destruct scr; [|discriminate].
 
-Lemma exec_cons : forall args f c e s rest,
-  exec args (S f) c e (s :: rest) =
-  match exec1 args (exec args f) c e s with RNormal e' => exec args f c e' rest | other => other end.
-Proof. reflexivity. Qed.
 
 (* the arguments the model is about: sizes are not negative *)
 Definition size_ok (a : arg) : Prop := match a with AInt z | AUint z => 0 <= z | _ => True end.
@@ -114,11 +110,6 @@ Ltac xstep :=
     rewrite HR; clear HR R
   end; cbv beta iota.
 
-Definition last_or (d : mval) (vs : list val) : mval := match rev vs with v :: _ => MVal v | [] => d end.
-Lemma last_or_cons : forall d v vs, last_or d (v :: vs) = last_or (MVal v) vs.
-Proof.
-  intros d v vs. unfold last_or. cbn [rev]. destruct (rev vs) as [|w r] eqn:E; [reflexivity|]. reflexivity.
-Qed.
 
 Local Opaque as_type.
 
@@ -149,8 +140,6 @@ Ltac fin :=
          | |- context [match class_ctor ?k ?t ?f with _ => _ end] => destruct (class_ctor k t f)
          end;
   reflexivity.
-Lemma exec_nil : forall args f c e, exec args (S f) c e [] = RNormal e.
-Proof. reflexivity. Qed.
 Ltac seq_cases pv :=
   destruct pv;
   match goal with
